@@ -30,6 +30,30 @@ pub fn drive(tr: &mut Tracer, rng: &mut StdRng, thorough: bool) {
     let fa = forms::all_forms("add");
     let fs = forms::all_forms("sub");
     let fm = forms::all_forms("mul");
+    // form sweeps: a long program in which EVERY overload of + - * meets operands that earlier steps produced, starting from
+    // the special representations (one written 1.00, zero carrying a scale, powers of ten, twins)
+    let specials = [dec(false, "100", 2), dec(false, "0", 7), dec(false, "10", -1), dec(true, "1000", 3), dec(false, "25", 1), dec(false, "1", 0)];
+    for sweep in 0..(if thorough { 40 } else { 6 }) {
+        for (op, fl) in [("mul", &fm), ("add", &fa), ("sub", &fs)] {
+            tr.reserve(fl.len() + 40);
+            tr.emit(json!({"op": "reset"}));
+            for r in 1..=NREG { tr.emit(json!({"op": "load", "dst": r, "a": specials[(r - 1 + sweep) % 6]})); }
+            // register 1 is re-loaded with a special every few steps so that products do not drift away from one / zero
+            for (i, f) in fl.iter().enumerate() {
+                let (lk, rk) = form_kinds(f);
+                let a = 1 + (i + sweep) % NREG;
+                let b = 1 + (i / NREG + 2 * sweep) % NREG;
+                let av = if is_dec_kind(&lk) { json!({"r": a}) } else if lk.ends_with("bigint") { dec(i % 3 == 0, ["1", "7", "0", "10"][i % 4], 0) } else { dec(false, ["1", "2", "0", "10"][i % 4], 0) };
+                let bv = if is_dec_kind(&rk) { json!({"r": b}) } else if rk.ends_with("bigint") { dec(i % 5 == 0, ["7", "1", "10", "0"][i % 4], 0) } else { dec(false, ["2", "1", "10", "0"][i % 4], 0) };
+                let dst = if lk == "assign" { a } else { 1 + (i + 3) % NREG };
+                tr.emit(json!({"op": op, "form": f, "a": av, "b": bv, "dst": dst}));
+                if i % 9 == 8 {
+                    // keep the magnitudes small: normalise / reload
+                    tr.emit(json!({"op": "load", "dst": dst, "a": specials[(i + sweep) % 6]}));
+                }
+            }
+        }
+    }
     for _ in 0..nprog {
         tr.reserve(50);
         tr.emit(json!({"op": "reset"}));
